@@ -25,7 +25,8 @@ Inductive gexpr :=
 | GList (es : list gexpr)                             (* [e1, ..., ek] *)
 | GIfExp (c a b : gexpr)                              (* a if c else b *)
 | GFloat (num : Z) (den : positive)                   (* a float literal, as the exact rational it denotes *)
-| GNeg (a : gexpr).                                   (* -a *)
+| GNeg (a : gexpr)                                    (* -a *)
+| GListComp (body : gexpr) (v : string) (it : gexpr). (* [body for v in it] *)
 
 Inductive glhs :=
 | LSelf (f : field)                                   (* self.f = ... *)
